@@ -7,11 +7,17 @@ vars == <<phase, i, obs>>
 Init == phase = 0 /\ i \in 1..Len(CaseSeq) /\ obs = <<>>
 EvalCase(c) == IF "T" \in DOMAIN c
                THEN LET mg == Moved(c, c.T) IN [base |-> Normal(c), moved |-> Normal(mg), mverts |-> mg.verts, P |-> FrameP(c, c.T)]
-               ELSE IF "gradOnly" \in DOMAIN c THEN GradOnly(c) ELSE Normal(c)
+               ELSE IF "gradOnly" \in DOMAIN c THEN GradOnly(c)
+               ELSE IF "vperm" \in DOMAIN c
+               THEN LET n1 == Normal(c)  n2 == Normal(Permuted(c, c.vperm, c.eperm)) IN
+                    [n1 EXCEPT !.conv = IF PermEquivariant(c, c.vperm, c.eperm, n1, n2) THEN "perm-ok" ELSE "perm-BAD"]
+               ELSE Normal(c)
 Next == phase = 0 /\ phase' = 1 /\ i' = i /\ obs' = EvalCase(CaseSeq[i])
 Spec == Init /\ [][Next]_vars
 \* H is symmetric (design-level sanity of the accumulation)
 Symmetric == phase = 1 /\ "H" \in DOMAIN obs => \A a \in 1..Len(obs.H) : \A b \in 1..Len(obs.H) : obs.H[a][b] = obs.H[b][a]
+\* T6: the normal equations of a graph with permuted vertex and edge lists are those of the original graph with coordinates renamed
+PermutationEquivariant == phase = 1 /\ "conv" \in DOMAIN obs => obs.conv # "perm-BAD"
 \* T5: errors, chi^2, gradient and Hessian of the left-composed graph are those of the original graph
 FrameInvariant == phase = 1 /\ "moved" \in DOMAIN obs =>
    LET c == CaseSeq[i]  P == FrameP(c, c.T) IN
